@@ -12,6 +12,7 @@ JOBS = [
     # exact-cost contract of the chunk-splitting loop: MiniSat does not finish in 10 min, CaDiCaL needs ~5 min
     dict(name='c09_snappy_emit_copy', prop='C09', entry='h_c09_emit_copy', enforce='snappy_emit_copy',
          min_loop_obligations=1, backend='cadical', tier='thorough', timeout=1500, est_s=400, wip=True,
+         note='passed (all properties, CaDiCaL, 298 s) when run through the same pipeline steps by hand BEFORE the ensures was rewritten with __CPROVER_old(op); not yet re-run through bin/cqv; breakage offset>2048 detected on single properties',
          replayer=dict(kind='direct', harness='replay/direct/snappy_emit.c', sources=[], vars={'offset': 'offset', 'len': 'len'}),
          **SC9),
     dict(name='c09_snappy_bound', prop='C09', entry='h_c09_bound', enforce='carquet_snappy_compress_bound',
@@ -20,7 +21,8 @@ JOBS = [
          functions=['carquet_snappy_compress_bound'], wip=False, **SC9),
     dict(name='c09_snappy_compress', props=['C09', 'C10'], entry='h_c09_compress', enforce='carquet_snappy_compress',
          replace=['carquet_snappy_compress_bound', 'snappy_write_varint', 'snappy_emit_literal', 'snappy_emit_copy'],
-         min_loop_obligations=2, est_s=900, timeout=1500, tier='thorough', backend='cadical', wip=True,
+         min_loop_obligations=2, est_s=900, timeout=3000, mem_gb=24, tier='thorough', backend='cadical', wip=True,
+         note='UNDECIDED: MiniSat > 25 min, CaDiCaL out of memory at 8 GB; loop-step obligations need > 150 s each. Reach canaries confirmed only for the tiny-input path after the __CPROVER_old(op) fix',
          replayer=dict(kind='fuzz', harness='replay/fz/snappy_compress.c', sources=['src/compression/snappy.c'], max_len=64, secs=20),
          defines=['CQV_OWN_MEM=1'], extra_sources=[], trusted=[OWNMEM], **SC9),
     # same contract plus the obligation that the length preamble can represent src_size
@@ -36,6 +38,7 @@ JOBS = [
          functions=['snappy_emit_literal'], trusted=[SPEC], wip=False, **SC10),
     dict(name='c10_snappy_emit_copy', prop='C10', entry='h_c10_emit_copy', enforce='snappy_emit_copy',
          min_loop_obligations=1, trusted=[SPEC], backend='cadical', tier='thorough', timeout=1500, est_s=400, wip=True,
+         note='passed (all properties incl. the C10 parse assertions, CaDiCaL, 1066 s under load) by hand before the __CPROVER_old(op) rewrite; not yet re-run through bin/cqv',
          replayer=dict(kind='direct', harness='replay/direct/snappy_emit.c', sources=[], vars={'offset': 'offset', 'len': 'len'}),
          **SC10),
 ]
